@@ -224,3 +224,70 @@ C["kneeliverse.postprocessing.filter_clusters_corners"] = dict(
         hints=["best_knee == knees[_last_mask_index[idx]]", "clusters[_last_mask_index[idx]] == i"],
     )},
 )
+
+
+# ================================================================== C14: even-point insertion
+VALID = lambda s, n="len(%s)": "forall(0, %s, lambda k: 0 <= %s[k] and %s[k] < len(points))" % ((n % s) if "%s" in n else n, s, s)
+NONFLAT = ["exists(0, len(points), lambda a: exists(0, len(points), lambda b: points[a][0] != points[b][0]))",
+           "exists(0, len(points), lambda a: exists(0, len(points), lambda b: points[a][1] != points[b][1]))"]
+CAND = lambda c: "0 <= %s[0] and %s[0] < %s[1] and %s[1] < len(points) and absr(points[%s[1]][0] - points[%s[0]][0]) / dx > 2.0 * tx" % ((c,) * 6)
+C["kneeliverse.postprocessing.add_points_even_knees"] = dict(
+    mode="R", owner="C14", merge_seqs=True,
+    params={"points": PTS, "knees": "Seq[Int]", "tx": "Real", "ty": "Real", "extremes": "Bool"}, returns="Seq[Int]",
+    locals={"new_knees": "Seq[Int]", "candidates": "Seq[Tup[Int,Int]]"},
+    requires=["len(points) >= 2", "len(knees) >= 1", "tx > 0 and ty > 0", VALID("knees"),
+              "forall2(0, len(knees), lambda a, b: knees[a] < knees[b])"] + NONFLAT,
+    ensures=[VALID("result"),
+             "forall2(0, len(result), lambda a, b: result[a] < result[b])",
+             "forall2(0, len(result), lambda a, b: %s >= %s)" % (H("result[a]"), H("result[b]"))],
+    post_hints=["forall2(0, len(knees_idx), lambda a, b: knees_idx[a] != knees_idx[b])",
+                "forall2(0, len(knees_idx), lambda a, b: knees_idx[a] < knees_idx[b])",
+                VALID("knees_idx")],
+    loops={
+        0: dict(inv=["forall(0, len(candidates), lambda c: %s)" % CAND("candidates[c]"), "len(new_knees) == 0"]),
+        1: dict(inv=[VALID("new_knees")]),
+        2: dict(inv=[VALID("new_knees"), "number_points >= 1 and inc >= 0 and inc * number_points <= right - left",
+                     "0 <= left and right < len(points)", "idx - left == _it2 * inc", "_it2 <= number_points"],
+                hints=["_it2 * inc <= number_points * inc"]),
+    },
+)
+
+from contracts.rdp import C as _RDP
+C["kneeliverse.rdp.mapping"] = _RDP["kneeliverse.rdp.mapping"]
+PR = lambda e: "points[reduced[%s]]" % e
+C["kneeliverse.postprocessing.add_points_even"] = dict(
+    mode="R", owner="C14", merge_seqs=True,
+    params={"points": PTS, "reduced": "Seq[Int]", "knees": "Seq[Int]", "removed": "Seq[Tup[Real,Real]]", "tx": "Real", "ty": "Real", "extremes": "Bool"},
+    returns="Seq[Int]",
+    locals={"new_knees": "Seq[Int]", "candidates": "Seq[Int]"},
+    requires=["len(points) >= 2", "tx > 0 and ty > 0",
+              "len(reduced) >= 2", "reduced[0] == 0", "reduced[len(reduced)-1] == len(points) - 1",
+              "forall2(0, len(reduced), lambda a, b: reduced[a] < reduced[b])",
+              "len(removed) == len(reduced) - 1",
+              "forall(0, len(removed), lambda k: removed[k][0] == reduced[k] and removed[k][1] == reduced[k+1] - reduced[k] - 1)",
+              "forall(0, len(knees), lambda k: 0 <= knees[k] and knees[k] < len(reduced))",
+              "forall2(0, len(knees), lambda a, b: knees[a] <= knees[b])"] + NONFLAT,
+    ensures=[VALID("result"),
+             "forall2(0, len(result), lambda a, b: result[a] < result[b])",
+             "forall2(0, len(result), lambda a, b: %s >= %s)" % (H("result[a]"), H("result[b]"))],
+    post_hints=["forall2(0, len(knees_idx), lambda a, b: knees_idx[a] < knees_idx[b])", VALID("knees_idx")],
+    after={"number_points": ["0 <= left and left < right and right < len(points)",
+                             "absr(points[right][0] - points[left][0]) / dx > 2.0 * tx"]},
+    loops={
+        0: dict(inv=["len(candidates) == 2 * NC", "0 <= NC and NC <= _it0",
+                     "forall(0, NC, lambda c: 0 <= candidates[2*c] and candidates[2*c+1] == candidates[2*c] + 1 and candidates[2*c+1] < len(reduced))",
+                     "forall(0, NC - 1, lambda c: candidates[2*c+1] <= candidates[2*c+2])",
+                     "implies(NC > 0, candidates[2*NC-1] <= _it0)",
+                     # the same facts by plain position (what rdp.mapping requires of its index argument)
+                     "forall(0, len(candidates), lambda k: 0 <= candidates[k] and candidates[k] < len(reduced) and candidates[k] <= _it0)",
+                     "forall2(0, len(candidates), lambda a, b: candidates[a] <= candidates[b])",
+                     "forall(0, NC, lambda c: absr(%s[0] - %s[0]) / dx > 2.0 * tx)" % (PR("candidates[2*c+1]"), PR("candidates[2*c]")),
+                     ],
+                ghost_end=["NC = ite(len(candidates) == len(_h_candidates) + 2, NC + 1, NC)"]),
+        1: dict(inv=[VALID("new_knees")]),
+        2: dict(inv=[VALID("new_knees"), "number_points >= 1 and inc >= 0 and inc * number_points <= right - left",
+                     "0 <= left and right < len(points)", "idx - left == _it2 * inc", "_it2 <= number_points"],
+                hints=["_it2 * inc <= number_points * inc"]),
+    },
+    ghost_vars={"NC": "Int"}, ghost_init=["NC = 0"],
+)
